@@ -381,6 +381,9 @@ func drawCase(t *rapid.T) Case {
 	avoid := rapid.IntRange(0, 3).Draw(t, "avoidKnown") != 0
 	drawOnce.Do(func() {
 		drawCombos = admittedCombos(valueShapes...)
+		// rapid favours small indexes: richest locations first
+		rank := map[string]int{"path": 0, "query": 1, "header": 2, "cookie": 3}
+		sort.SliceStable(drawCombos, func(i, j int) bool { return rank[drawCombos[i].Loc] < rank[drawCombos[j].Loc] })
 		for _, cb := range drawCombos {
 			if !(cb.Loc == "query" && cb.Explode && cb.Shape == shMap) {
 				drawCombosAvoid = append(drawCombosAvoid, cb)
